@@ -604,6 +604,14 @@ func parseRequestLine(line string) (method, requestURI, proto string, ok bool) {
 	return line[:s1], line[s1+1 : s2], line[s2+1:], true
 }
 
+// validHeaderName reports whether v is a valid header field name (RFC 7230 token).
+func validHeaderName(v string) bool {
+	if len(v) == 0 {
+		return false
+	}
+	return strings.IndexFunc(v, isNotToken) == -1
+}
+
 var textprotoReaderCache sync.Pool
 
 func newTextprotoReader(br *bfe_bufio.Reader) *textproto.Reader {
@@ -688,6 +696,14 @@ func ReadRequest(b *bfe_bufio.Reader, maxUriBytes int) (req *Request, err error)
 	mimeHeader, headerKeys, err := tp.ReadMIMEHeaderAndKeys()
 	if err != nil {
 		return nil, err
+	}
+	// RFC 7230 3.2.4: a field name is a token; in particular no whitespace is
+	// allowed between the field name and the colon. Such a request must be
+	// rejected rather than forwarded with a name another parser may read differently.
+	for k := range mimeHeader {
+		if !validHeaderName(k) {
+			return nil, &badStringError{"invalid header name", k}
+		}
 	}
 	req.Header = Header(mimeHeader)
 	req.HeaderKeys = headerKeys
